@@ -6,7 +6,7 @@
 #   3. ./check <pid> with TANGELO_REPO=<worktree> must exit 1 with a VIOLATION line
 #   4. restore the worktree
 pid=$1; vdir=$2; shift 2
-wt=/tmp/seed/$pid
+wt=${SEED_WT:-/tmp/seed}/$pid
 head=$(git -C /repo rev-parse HEAD)
 git -C $wt checkout -q --detach $head 2>/dev/null; git -C $wt checkout -q -- . 
 cd $wt
